@@ -506,6 +506,17 @@ theorem fillBeforeNodes_valid (S : Schema) (hdet : ∀ w q, (((S.dfa w).edgesOf 
         rw [← this.2.1] at this
         exact this
 
+/-- … and as the parser gets them (`FromDom.fillNodes`, used by `find_place` and `finish`) -/
+theorem fillNodesDom_valid (S : Schema) (hdet : ∀ w q, (((S.dfa w).edgesOf q).map (·.1)).Nodup)
+    (hleaf : LeafEmpty S) (d : Dfa) (hd : ∀ q, ((d.edgesOf q).map (·.1)).Nodup) (q : Nat)
+    (after : List TypeId) (toEnd : Bool) (ns : List Node)
+    (h : FromDom.fillNodes S d q after toEnd = .ok (some ns)) :
+    isFill d S.generatable q after toEnd (S.types ns) = true ∧
+      ∀ n, n ∈ ns → FilledValid S (S.tyOf n) n := by
+  refine fillBeforeNodes_valid S hdet hleaf d hd q after toEnd ns ?_
+  rw [← FromDom.fillNodes_toOption, h]
+  rfl
+
 /-- non-vacuity of `LeafEmpty`, and the transferred statements on the example schema: the Fitter's
     searches give the answers of `findWrapping` / `fillBefore`, `ul.create_and_fill()` is `ul(li(p))` -/
 example : LeafEmpty S4 := by decide
